@@ -196,10 +196,17 @@ def execute(hist):
                     h.remove_node(op[1])
                 elif step == "fix":
                     base.fix_node_metadata(h, op[1])
+                elif step == "flip":
+                    # an (empty) batch with a weight list announces "the hypergraph will be weighted" on the directed / temporal / multiplex
+                    # containers: the content stays, the weightedness changes
+                    if kind == "D":
+                        h.add_edges([], weights=[])
+                    elif kind in ("T", "M"):
+                        h.add_edges([], [], weights=[])
                 else:
                     raise ValueError("unknown op " + str(step))
     except Exception as ex:
-        names = {"node": "add_node", "edge": "add_edge", "rm_edge": "remove_edge", "rm_node": "remove_node",
+        names = {"node": "add_node", "edge": "add_edge", "rm_edge": "remove_edge", "rm_node": "remove_node", "flip": "add_edges",
                  "fix": "set_node_metadata", "constructor": "constructor", "ctor": "constructor"}
         return None, f"{names.get(step, step)} raised {type(ex).__name__}"
     return h, None
@@ -414,9 +421,9 @@ def equal_case(rep, hist_a, hist_b, name, pure=False, a=None):
     return "done"
 
 
-def differ_case(rep, spec_a, spec_b, name, a=None):
+def differ_case(rep, spec_a, spec_b, name, a=None, hist_b=None):
     tname = KINDS[spec_a["kind"]]
-    hist_a, hist_b = canonical(spec_a), reversed_canonical(spec_b)
+    hist_a, hist_b = canonical(spec_a), (hist_b if hist_b is not None else reversed_canonical(spec_b))
     rp = {"part": "differ", "a": hist_a, "b": hist_b, "name": name}
     inp = {"history A": hist_a, "history B": hist_b, "edited element": name}
     sa, da, err = a if a is not None else _obj(rep, hist_a, "", inp, rp)
@@ -449,9 +456,13 @@ def content_cases(ctx, rep, spec, salt, rng):
     if not spec["weighted"]:
         u, w = weightedness_pair(spec)
         edits.append(("the weightedness", w))
+    flipped = None
+    if not spec["weighted"] and spec["kind"] in ("D", "T", "M"):
+        flipped = dict(A, ops=list(A["ops"]) + [("flip",)])
+        edits.append(("the weightedness (switched on by a weighted batch after construction)", spec))
     for name, spec2 in edits:
         ctx.case(base.spec_desc(spec, v=name, h=base.zlib.crc32(repr(spec2).encode())), nontrivial=bool(spec["nodes"]))
-        st = differ_case(rep, spec, spec2, name, a=a)
+        st = differ_case(rep, spec, spec2, name, a=a, hist_b=flipped if name.startswith("the weightedness (switched") else None)
         if st != "done":
             ctx.count(f"edit skipped [{tname}; {name}]: {st}")
         else:
